@@ -29,9 +29,9 @@ Print Assumptions C02_release_only_own.
 (* Allocation never takes anything away from anybody, and what it answers is owned by the asking session —
    for every choice of free slot, override and VRF walk. *)
 Theorem C02_allocate_owned :
-  forall f prof ov vrf s r r' res, reg_ok r -> In (r', res) (alloc_from_profile f prof ov vrf s r) ->
+  forall f prof ov vrf s r r' res, reg_ok r -> In (r', res) (alloc_from_profile Repaired f prof ov vrf s r) ->
   reg_ok r' /\ (forall t f' v y, owns r f' v y t -> owns r' f' v y t) /\
-  (res = None \/ exists x k, res = Some (x, k) /\ forall v, owns r' f v x s).
+  (res = None \/ exists x k, res = Some (x, k) /\ owns r' f vrf x s).
 Proof.
   intros f prof ov vrf s r r' res Hok Hc.
   destruct (alloc_from_profile_ok _ _ _ _ _ _ _ _ Hok Hc) as [A B].
@@ -109,6 +109,13 @@ Theorem C02_range_pools_resettable :
 Proof. exact range_resettable. Qed.
 Print Assumptions C02_range_pools_resettable.
 
+(* every configuration of range pools and well-formed PD pools meets [resettable]; fresh pools are [pool_wf] *)
+Theorem C02_config_pools_wf :
+  forall ps, (forall p, In p ps -> (exists lo hi ex, p_geom p = GRange lo hi ex) \/ pd_geom_wf (p_geom p)) ->
+  resettable (mkReg ps []) /\ (Forall (fun p => p = reset_pool p) ps -> Forall pool_wf ps).
+Proof. exact cfg_resettable. Qed.
+Print Assumptions C02_config_pools_wf.
+
 (* initial registries built from address ranges are well-formed *)
 Theorem C02_initial_pools_wf :
   forall f key prof vrf lo hi ex, pool_wf (new_pool f key prof vrf (GRange lo hi ex)).
@@ -167,7 +174,7 @@ Example C02_nonvacuous :
   (let st := run_first Repaired w3_init w3_ops in
    holds_of st 2 F4 = Some (a1, 0) /\ holds_of st 3 F4 = None /\
    map (fun p => p_leases p) (pools (st_reg st)) = [[(a1, 2)]]) /\
-  reg_ok (st_reg w2_init) /\ ~ pools_disjoint (st_reg w2_init) /\
+  reg_ok (st_reg w2_init) /\ pools_disjoint (st_reg w2_init) /\   (* the same subnet in VRF 1 and VRF 2 is fine *)
   reg_ok (st_reg w1_init) /\ pools_disjoint (st_reg w1_init).
 Proof.
   split; [vm_compute; repeat split; reflexivity|].
@@ -177,11 +184,11 @@ Proof.
   { split; [simpl; constructor; [simpl; intros [H|[]]; discriminate H|constructor; [simpl; tauto|constructor]]|].
     constructor; [apply new_pool_wf_range|constructor; [apply new_pool_wf_range|constructor]]. }
   split.
-  { intros H. specialize (H (new_pool F4 1 0 1 (GRange a1 a1 [])) (new_pool F4 2 0 2 (GRange a1 a1 [])) (a1, 0)).
-    simpl in H. assert (E : (F4, 1) = (F4, 2)) by (apply H; auto). discriminate E. }
+  { intros p q x Hp Hq _ Hv _ _. simpl in Hp, Hq.
+    destruct Hp as [<-|[<-|[]]], Hq as [<-|[<-|[]]]; try reflexivity; discriminate Hv. }
   split.
   { split; [simpl; constructor; [simpl; tauto|constructor]|]. constructor; [apply new_pool_wf_range|constructor]. }
-  intros p q x Hp Hq _ _ _. simpl in Hp, Hq. destruct Hp as [<-|[]], Hq as [<-|[]]. reflexivity.
+  intros p q x Hp Hq _ _ _ _. simpl in Hp, Hq. destruct Hp as [<-|[]], Hq as [<-|[]]. reflexivity.
 Qed.
 Print Assumptions C02_nonvacuous.
 
@@ -203,9 +210,134 @@ Proof.
   split; [constructor; [apply new_pool_wf_range|constructor]|].
   split; [intros p [<-|[]] _ sl; reflexivity|].
   split; [apply range_resettable; intros p [<-|[]]; eexists _, _, _; reflexivity|].
-  split; [intros p q x [<-|[]] [<-|[]] _ _ _; reflexivity|].
+  split; [intros p q x [<-|[]] [<-|[]] _ _ _ _; reflexivity|].
   split; [simpl; constructor; [simpl; intros [H|[]]; discriminate H|constructor; [simpl; tauto|constructor]]|].
   split; [constructor; [apply fresh_new|constructor; [apply fresh_new|constructor]]|].
   split; [apply run_first_reach; constructor|vm_compute; split; reflexivity].
 Qed.
 Print Assumptions C02_unique_nonvacuous.
+
+(* ------------------------------------------------------------------ IPoE: told = recorded *)
+(* In every reachable state an IPoE session that records an IPv4 address (sess.IPv4, written by handleAck)
+   records exactly the address of its last OFFER/ACK, which is also the address of its allocation context. *)
+Theorem C02_ipoe_recorded_is_told :
+  forall ps ss st, Forall fresh_sess ss -> reach Repaired (init_state ps ss) st ->
+  forall s, In s (st_sess st) -> s_ppp s = false ->
+    s_b4 s = None \/ (s_b4 s = s_told s /\ s_a4 s = s_b4 s).
+Proof. exact ipoe_recorded_is_told. Qed.
+Print Assumptions C02_ipoe_recorded_is_told.
+
+(* ------------------------------------------------------------------ the code at /repo HEAD *)
+(* [Head] = the variant /repo HEAD implements (constant fall-back, expiry take-over, pending-ACK and nil-pool
+   defects fixed; unchecked release, unresolved answer from the lease table, untracked out-of-pool statics,
+   VRF-blind containment walk / override, restore keeping conflicting addresses still present).
+   [reach_benign]: at every step of the history HEAD has exactly the successors of the Repaired model, i.e. none of
+   the recorded known-finding triggers fires at that step (checkable per step; the driver does it for every case).
+   C02_head_triggers characterises the triggers at the primitives: outside them the variants coincide. *)
+Theorem C02_head_told_is_recorded :
+  forall ps ss st,
+  NoDup (map pool_id ps) -> Forall pool_wf ps -> kinds_ok (mkReg ps []) -> resettable (mkReg ps []) ->
+  NoDup (map s_id ss) -> Forall fresh_sess ss ->
+  reach_benign (init_state ps ss) st ->
+  forall s, In s (st_sess st) ->
+    (forall f x, holds s f = Some x -> owns (st_reg st) f (s_vrf s) x (s_id s)) /\
+    (s_ppp s = true ->
+       (s_a4 s = None \/ s_a4 s = s_told s) /\
+       (s_live s = true -> forall t, s_told s = Some t -> owns (st_reg st) F4 (s_vrf s) (t, 0) (s_id s))) /\
+    (s_ppp s = false -> s_b4 s = None \/ (s_b4 s = s_told s /\ s_a4 s = s_b4 s)).
+Proof. exact head_told_is_recorded. Qed.
+Print Assumptions C02_head_told_is_recorded.
+
+Theorem C02_head_unique :
+  forall ps ss st,
+  NoDup (map pool_id ps) -> Forall pool_wf ps -> kinds_ok (mkReg ps []) -> resettable (mkReg ps []) ->
+  pools_disjoint (mkReg ps []) ->
+  NoDup (map s_id ss) -> Forall fresh_sess ss ->
+  reach_benign (init_state ps ss) st ->
+  forall s1 s2 f x, In s1 (st_sess st) -> In s2 (st_sess st) -> s_vrf s1 = s_vrf s2 ->
+    holds s1 f = Some x -> holds s2 f = Some x -> s1 = s2.
+Proof. exact head_unique. Qed.
+Print Assumptions C02_head_unique.
+
+(* where HEAD and Repaired can differ at all: exactly the recorded findings *)
+Theorem C02_head_triggers :
+  (* release-frees-foreign-lease: only a release of a slot leased to somebody else *)
+  (forall p sl s, (forall o, lease_of p sl = Some o -> o = s) ->
+     pool_release Head p sl s = pool_release Repaired p sl s) /\
+  (* static-outside-pools-untracked / reserve-ignores-vrf: only an address in no pool, or in a pool of another VRF *)
+  (forall f x vrf s r, (exists p, In p (fam_pools f r) /\ contains p x = true) ->
+     (forall p, In p (fam_pools f r) -> contains p x = true -> p_vrf p = vrf) ->
+     reserve_cont Head f x vrf s r = reserve_cont Repaired f x vrf s r) /\
+  (* dhcp4-unresolved-answered-from-lease-table: only when the MAC has a lease-table entry *)
+  (forall r pr s isreq rq, assoc (s_mac s) (by_mac pr) = None -> unresolved Head r pr s isreq rq = None) /\
+  (* pool override: only when it names a pool of another VRF *)
+  (forall f prof ov vrf s r,
+     (forall k p, ov = Some k -> In p (fam_pools f r) -> p_key p = k -> p_vrf p = vrf) ->
+     alloc_from_profile Head f prof ov vrf s r = alloc_from_profile Repaired f prof ov vrf s r) /\
+  (* restore keeping a conflicting address: only when a re-reservation is refused *)
+  (forall f x vrf sid r, reserve_cont Head f x vrf sid r = reserve_cont Repaired f x vrf sid r ->
+     (forall r' ok cs, reserve_cont Repaired f x vrf sid r = (r', ok) :: cs -> ok = true) ->
+     reserve_first Head f (Some x) vrf sid r = reserve_first Repaired f (Some x) vrf sid r).
+Proof.
+  split; [exact trigger_release|]. split; [exact trigger_reserve|]. split; [exact trigger_unresolved|].
+  split; [exact trigger_override|exact trigger_restore].
+Qed.
+Print Assumptions C02_head_triggers.
+
+(* ------------------------------------------------------------------ delegated prefixes do not OVERLAP *)
+(* Two sessions of one VRF whose delegated prefixes lie inside PD pools of that VRF (well-formed geometry; the
+   networks of different PD pools of a VRF do not overlap) never hold overlapping prefixes - containment, not
+   just equality. *)
+Theorem C02_pd_no_overlap :
+  forall ps ss st,
+  NoDup (map pool_id ps) -> Forall pool_wf ps -> kinds_ok (mkReg ps []) -> resettable (mkReg ps []) ->
+  pools_disjoint (mkReg ps []) -> pd_cfg ps -> pd_apart ps ->
+  NoDup (map s_id ss) -> Forall fresh_sess ss ->
+  reach Repaired (init_state ps ss) st ->
+  forall s1 s2 x y, In s1 (st_sess st) -> In s2 (st_sess st) -> s_vrf s1 = s_vrf s2 ->
+    holds s1 FD = Some x -> holds s2 FD = Some y ->
+    (exists p, In p ps /\ p_fam p = FD /\ p_vrf p = s_vrf s1 /\ contains p x = true) ->
+    (exists q, In q ps /\ p_fam q = FD /\ p_vrf q = s_vrf s2 /\ contains q y = true) ->
+    fst x < two128 -> fst y < two128 ->
+    overlap x y -> s1 = s2.
+Proof. exact pd_no_overlap_all. Qed.
+Print Assumptions C02_pd_no_overlap.
+
+(* non-vacuity of the PD instance: a /62 -> /64 pool meets every hypothesis; two sessions get different prefixes *)
+Definition pdbase : N := 42540766411282597579270467821299040256.    (* 2001:db8:100:: *)
+Definition pdg : geom := GPfx pdbase 64 4 64.
+Definition w5_ps := [new_pool FD 9 0 0 pdg].
+Definition w5_ss := [new_sess 1 false None (Some 0) 1; new_sess 2 false None (Some 0) 2].
+Definition w5_ops := [IS true 1 0 None None None None; IS true 2 0 None None None None].
+Lemma pdg_geom : pd_geom_wf pdg.
+Proof.
+  unfold pdg, pd_geom_wf. split; [reflexivity|split; [vm_compute; discriminate|split; [vm_compute; reflexivity|]]].
+  split; vm_compute; discriminate.
+Qed.
+Print Assumptions pdg_geom.
+Lemma pdg_wf : pool_wf (new_pool FD 9 0 0 pdg).
+Proof. apply new_pool_wf_pd. exact pdg_geom. Qed.
+Print Assumptions pdg_wf.
+Example C02_pd_nonvacuous :
+  NoDup (map pool_id w5_ps) /\ Forall pool_wf w5_ps /\ kinds_ok (mkReg w5_ps []) /\ resettable (mkReg w5_ps []) /\
+  pools_disjoint (mkReg w5_ps []) /\ pd_cfg w5_ps /\ pd_apart w5_ps /\
+  NoDup (map s_id w5_ss) /\ Forall fresh_sess w5_ss /\
+  (let st := run_first Repaired (init_state w5_ps w5_ss) w5_ops in
+   reach Repaired (init_state w5_ps w5_ss) st /\
+   holds_of st 1 FD = Some (pdbase, 64) /\ holds_of st 2 FD = Some (pdbase + 2 ^ 64, 64) /\
+   ~ overlap (pdbase, 64) (pdbase + 2 ^ 64, 64) /\ overlap (pdbase, 64) (pdbase + 5, 64)).
+Proof.
+  split; [simpl; constructor; [simpl; tauto|constructor]|].
+  split; [constructor; [exact pdg_wf|constructor]|].
+  split; [intros p [<-|[]] Hf; exfalso; apply Hf; reflexivity|].
+  split; [intros p [<-|[]]; exact pdg_wf|].
+  split; [intros p q x [<-|[]] [<-|[]] _ _ _ _; reflexivity|].
+  split; [intros p [<-|[]] _; exact pdg_geom|].
+  split; [intros p q x y [<-|[]] [<-|[]] _ _ _ Hn; exfalso; apply Hn; reflexivity|].
+  split; [simpl; constructor; [simpl; intros [H|[]]; discriminate H|constructor; [simpl; tauto|constructor]]|].
+  split; [constructor; [apply fresh_new|constructor; [apply fresh_new|constructor]]|].
+  split; [apply run_first_reach; constructor|].
+  split; [vm_compute; reflexivity|]. split; [vm_compute; reflexivity|].
+  split; [unfold overlap; vm_compute; discriminate|unfold overlap; vm_compute; reflexivity].
+Qed.
+Print Assumptions C02_pd_nonvacuous.
